@@ -367,4 +367,134 @@ theorem RelN.abs_err (F : FltTy) {n : Nat} {x w : ℚ} (hx : 0 ≤ x) (h : RelN 
 and the theorem's bound `(1+2^-64)^3 − 1` of course holds. -/
 example : productF [Flt.fin 3, Flt.fin 5, Flt.fin 7] (Flt.fin 1) = some (Flt.fin 105) := by decide +kernel
 
+/-! ### The power loop `checked_int_pow` in long double (`cipLoopF`): at most `e` roundings for exponent `e`
+
+`ApproxF n x v`: the float `v` is `+inf` (the loop overflowed; it then never returns a finite value that matters) or a
+finite value `≥ 1` carrying at most `n` roundings of the exact `x`. -/
+
+def ApproxF (n : Nat) (x : ℚ) : Flt → Prop
+  | .inf false => True
+  | .fin w => RelN ld n x w ∧ 1 ≤ w
+  | _ => False
+
+theorem ApproxF.mono {n m : Nat} (h : n ≤ m) {x : ℚ} : ∀ {v : Flt}, ApproxF n x v → ApproxF m x v
+  | .inf false, _ => trivial
+  | .inf true, hv => hv.elim
+  | .nan, hv => hv.elim
+  | .fin w, hv => ⟨RelN.mono ld h hv.1, hv.2⟩
+
+/-- One multiplication of the loop. -/
+theorem mul_ApproxF {n m : Nat} {x y : ℚ} : ∀ {a b : Flt}, ApproxF n x a → ApproxF m y b →
+    ApproxF (n + m + 1) (x * y) (Flt.mul ld a b)
+  | .nan, _, ha, _ => ha.elim
+  | .inf true, _, ha, _ => ha.elim
+  | _, .nan, _, hb => by cases ‹Flt› <;> exact hb.elim
+  | _, .inf true, _, hb => by cases ‹Flt› <;> exact hb.elim
+  | .inf false, .inf false, _, _ => by simp [Flt.mul, ApproxF]
+  | .inf false, .fin b, _, hb => by
+    have hb1 : 1 ≤ b := hb.2
+    have hne : b ≠ 0 := by intro h0; rw [h0] at hb1; norm_num at hb1
+    have hpos : ¬ b < 0 := by linarith
+    simp [Flt.mul, ApproxF, hne, hpos]
+  | .fin a, .inf false, ha, _ => by
+    have ha1 : 1 ≤ a := ha.2
+    have hne : a ≠ 0 := by intro h0; rw [h0] at ha1; norm_num at ha1
+    have hpos : ¬ a < 0 := by linarith
+    simp [Flt.mul, ApproxF, hne, hpos]
+  | .fin a, .fin b, ha, hb => by
+    have hprod : 1 ≤ a * b := by nlinarith [ha.2, hb.2]
+    have hne : a * b ≠ 0 := by intro h0; rw [h0] at hprod; norm_num at hprod
+    have hmul : Flt.mul ld (Flt.fin a) (Flt.fin b) = rne ld (a * b) := rfl
+    have hge := rne_atLeast_pow2 ld (by decide) (by decide) (a * b) 0 (by simpa using hprod)
+    rw [hmul]
+    cases hv : rne ld (a * b) with
+    | nan => rw [hv] at hge; simp [Flt.AtLeast] at hge
+    | inf s =>
+      rw [hv] at hge
+      cases s with
+      | false => trivial
+      | true => simp [Flt.AtLeast] at hge
+    | fin v =>
+      rw [hv] at hge
+      have hv1 : 1 ≤ v := by simpa [Flt.AtLeast] using hge
+      exact ⟨mul_RelN ld ha.1 hb.1 hne (ld_normal_of_ge_one _ hprod) v (by rw [hmul, hv]), hv1⟩
+
+/-- **`checked_int_pow` in long double.**  If the running result carries `nr` roundings of `X^r` and the running base `nb`
+roundings of `X^p`, then whatever the loop returns for the remaining exponent `e` carries at most `nr + e·(nb+1)` roundings of
+`X^(r + p·e)` (or is `+inf`). -/
+theorem cipLoopF_ApproxF (X : ℚ) : ∀ (e : Nat) (R B : Flt) (r p nr nb : Nat), ApproxF nr (X ^ r) R → ApproxF nb (X ^ p) B →
+    ∀ v, cipLoopF R B e = some v → ApproxF (nr + e * (nb + 1)) (X ^ (r + p * e)) v := by
+  intro e
+  induction e using Nat.strongRecOn with
+  | ind e ih =>
+    intro R B r p nr nb hR hB v hv
+    unfold cipLoopF at hv
+    by_cases he : e = 0
+    · subst he
+      simp at hv; subst hv
+      simpa using hR
+    · simp only [he, dif_neg, not_false_eq_true] at hv
+      have he2 : e / 2 < e := by omega
+      have hBB : ApproxF (nb + nb + 1) (X ^ (p + p)) (Flt.mul ld B B) := by
+        have := mul_ApproxF hB hB
+        rwa [← pow_add] at this
+      by_cases hodd : e % 2 = 1
+      · simp only [hodd, if_true] at hv
+        obtain ⟨q, hq⟩ : ∃ q, e = 2 * q + 1 := ⟨e / 2, by omega⟩
+        have hq2 : e / 2 = q := by omega
+        by_cases hg : Flt.gt B (Flt.div ld ldMax R) = true
+        · simp only [hg, if_true] at hv; cases hv
+        · simp only [hg, Bool.false_eq_true, if_false] at hv
+          have hRB : ApproxF (nr + nb + 1) (X ^ (r + p)) (Flt.mul ld R B) := by
+            have := mul_ApproxF hR hB
+            rwa [← pow_add] at this
+          by_cases hg2 : Flt.gt B (Flt.div ld ldMax B) = true
+          · simp only [hg2, if_true] at hv
+            split at hv
+            · rename_i h0
+              simp at hv; subst hv
+              have hq0 : q = 0 := by omega
+              subst hq0
+              have e1 : e = 1 := by omega
+              subst e1
+              have : nr + 1 * (nb + 1) = nr + nb + 1 := by ring
+              rw [this]
+              simpa using hRB
+            · cases hv
+          · simp only [hg2, Bool.false_eq_true, if_false] at hv
+            have := ih (e / 2) he2 (Flt.mul ld R B) (Flt.mul ld B B) (r + p) (p + p) (nr + nb + 1) (nb + nb + 1) hRB hBB v hv
+            rw [hq2] at this
+            have e1 : nr + nb + 1 + q * (nb + nb + 1 + 1) = nr + e * (nb + 1) := by rw [hq]; ring
+            have e2 : r + p + (p + p) * q = r + p * e := by rw [hq]; ring
+            rwa [e1, e2] at this
+      · simp only [hodd, if_false] at hv
+        obtain ⟨q, hq⟩ : ∃ q, e = 2 * q := ⟨e / 2, by omega⟩
+        have hq2 : e / 2 = q := by omega
+        by_cases hg2 : Flt.gt B (Flt.div ld ldMax B) = true
+        · simp only [hg2, if_true] at hv
+          split at hv
+          · rename_i h0; omega
+          · cases hv
+        · simp only [hg2, Bool.false_eq_true, if_false] at hv
+          have := ih (e / 2) he2 R (Flt.mul ld B B) r (p + p) nr (nb + nb + 1) hR hBB v hv
+          rw [hq2] at this
+          have e1 : nr + q * (nb + nb + 1 + 1) = nr + e * (nb + 1) := by rw [hq]; ring
+          have e2 : r + (p + p) * q = r + p * e := by rw [hq]; ring
+          rwa [e1, e2] at this
+
+/-- **Corollary**: `checked_int_pow(b, e)` for an exactly represented base `b ≥ 1` returns, when finite, `b^e` with at most
+`e` roundings: `|w − b^e| ≤ b^e·((1+2^-64)^e − 1)`. -/
+theorem checkedIntPowF_RelN (b : ℚ) (hb : 1 ≤ b) (e : Nat) (w : ℚ) (h : checkedIntPowF (Flt.fin b) e = some (Flt.fin w)) :
+    RelN ld e (b ^ e) w ∧ |w - b ^ e| ≤ b ^ e * ((1 + uro ld) ^ e - 1) := by
+  have h0 : ApproxF 0 (b ^ 0) (Flt.fin 1) := ⟨by simpa using RelN.refl ld 1, le_refl _⟩
+  have h1 : ApproxF 0 (b ^ 1) (Flt.fin b) := ⟨by simpa using RelN.refl ld b, hb⟩
+  have := cipLoopF_ApproxF b e (Flt.fin 1) (Flt.fin b) 0 1 0 0 h0 h1 (Flt.fin w) h
+  simp only [Nat.zero_add, Nat.add_zero, Nat.mul_one, Nat.one_mul] at this
+  have hrel : RelN ld e (b ^ e) w := this.1
+  exact ⟨hrel, RelN.abs_err ld (pow_nonneg (by linarith) e) hrel⟩
+
+/-- Non-vacuity of the hypothesis (the loop does return finite values; it is the function the driver runs and C11 compares
+bit for bit with the compilers on ~280 magnitudes per run). -/
+example : checkedIntPowF (Flt.fin 3) 0 = some (Flt.fin 1) := by unfold checkedIntPowF cipLoopF; simp
+
 end Au
